@@ -54,7 +54,7 @@ REGISTRY["C10"] = dict(level="proof", theorems=T("C10", "C10_forget_safe"), case
                        oracles=[P.o_spec, P.o_views, P.o_ledger, P.o_no_defect_panic])
 REGISTRY["C11"] = dict(level="proof", theorems=T("C11", "C11_swap_ok", "C11_swap_panics_i", "C11_swap_panics_j", "C11_index", "C11_range_ok", "C11_range_panics", "C11_drain_panics", "C11_backfill_total"), cases=P.cases_C11, projection=proj_behaviour,
                        oracles=[P.o_spec, P.o_documented_panics, P.o_views])
-REGISTRY["C12"] = dict(level="proof", theorems=T("C12", "C12_new", "C12_from_array", "C12_from_iter", "C12_clone", "C12_clone_from", "C12_clone_values", "C12_clone_ids"), cases=P.cases_C12, projection=proj_behaviour,
+REGISTRY["C12"] = dict(level="proof", theorems=T("C12", "C12_new", "C12_from_array", "C12_from_iter", "C12_clone", "C12_clone_from", "C12_clone_values", "C12_clone_ids", "C12_to_vec", "C12_boxed"), cases=P.cases_C12, projection=proj_behaviour,
                        oracles=[P.o_spec, P.o_leak, P.o_views, P.o_no_defect_panic])
 REGISTRY["C13"] = dict(level="proof", cross_oracles=[P.x_hash_layout_independent], theorems=T("C13", "C13_eq", "C13_eq_slice", "C13_cmp", "C13_lex_eq", "C13_lex_lt", "C13_hash", "C13_debug", "C13_readonly"), cases=P.cases_C13, projection=proj_behaviour,
                        oracles=[P.o_spec, P.o_views, P.o_no_defect_panic])
